@@ -1243,6 +1243,8 @@ class Evaluator:
             other = b if isinstance(a, ExtV) else a
             if isinstance(other, (ClassV, StrV, TupleV, DictV, ListV, ObjV, Num)):
                 return False
+            if isinstance(other, OpaqueV) and other.what == "default":
+                return False      # a parameter's default value is never the `empty` sentinel
         if isinstance(a, ClassV) or isinstance(b, ClassV):
             return False
         if isinstance(a, StrV) and isinstance(b, StrV):
